@@ -44,11 +44,13 @@ func universeFor(tier string) universe {
 		}
 	}
 
+	// quick: the complete two-name universe (the trees of the thorough tier in
+	// which c is absent), patterns of <= 2 segments
 	return universe{
-		Label:    "names {a,b}; top kinds {absent,file,dir,symlink>sibling,symlink>.,hardlink,empty file}; depth-2 kinds {absent,file,dir}; patterns <= 2 segments",
+		Label:    "names {a,b}; top kinds {absent,file,dir,symlink>sibling,symlink>.,hardlink,empty file,abs symlink}; depth-2 kinds {absent,file,dir,symlink>sibling,symlink>.,hardlink}; patterns <= 2 segments",
 		TopNames: []string{"a", "b"}, KidNames: []string{"a", "b"},
-		TopKinds: []string{"-", "f", "d", "s", ".", "h", "e"},
-		KidKinds: []string{"-", "f", "d"},
+		TopKinds: []string{"-", "f", "d", "s", ".", "h", "e", "S"},
+		KidKinds: []string{"-", "f", "d", "s", ".", "h"},
 		MaxSeg:   2,
 	}
 }
